@@ -49,7 +49,7 @@ MODELS = ("default", "default", "BW", "BWR2", "BWR_normal", "one", "BWR_below")
 
 
 def make_card(i, rng, tag):
-    cls = i % 8
+    cls = i % 9
     if cls == 0:
         g = cards.CardGen(rng, tag, nbody=3, res_per_slot=(1, 2), models=MODELS)
     elif cls == 1:
@@ -83,6 +83,11 @@ def make_card(i, rng, tag):
         pa, pb = int(rng.choice([-1, 1])), int(rng.choice([-1, 1]))
         ma, mb = float(rng.choice(cards.FINAL_MASSES[:4])), float(rng.choice(cards.FINAL_MASSES[:4]))
         g = cards.CardGen(rng, tag, nbody=4, fixed_finals=[(ja, pa, ma), (ja, pa, ma), (jb, pb, mb), (jb, pb, mb)], n_chains=(1, 3), models=("default", "BW"))
+    elif cls == 8:
+        # the other registered two-body decay models on a share of the vertices (free helicity couplings, parity-related helicity couplings,
+        # LS couplings with the barrier factor variants)
+        g = cards.CardGen(rng, tag, nbody=3 if (i // 9) % 2 == 0 else 4, n_chains=(1, 3), final_j2=(0, 1, 1, 2) if (i // 9) % 2 == 0 else (0, 0, 1, 2), models=("default", "BW"),
+                          decay_models=("helicity_full", "helicity_parity", "gls-bf"), decay_opts_prob=0.0)
     else:
         # three identical particles (B, C, D): transpositions and cyclic exchanges (spin 0, and spin 1/2 or 1 with align_ref=center_mass)
         sub = int(rng.integers(2))
@@ -266,7 +271,9 @@ def run(ctx):
             vl = kin.random_velocity(rng, speeds=(0.99,))
             judge("f(Bp)==f(p) boost", [kin.boost(p, vl) for p in ps], {"boost": vl}, loose=True, mech="f(Bp)==f(p) boost 0.99")
         # inversion
-        all_strong = all(not o.get("p_break") for o in meta["dec_opts"].values())
+        all_strong = all(not o.get("p_break") and o.get("model") not in ("helicity_full", "helicity_full-bf") for o in meta["dec_opts"].values())
+        for o in meta["dec_opts"].values():
+            ctx.covered("decay_model", o.get("model", "default"))
         if meta["n"] == 3 or all_strong:
             judge("f(Pp)==f(p) inversion", [kin.parity(p) for p in ps], {"parity": True, "all_vertices_parity_conserving": all_strong})
             ctx.covered("inversion_class", "3body" if meta["n"] == 3 else "4body_strong")
